@@ -232,33 +232,55 @@ theorem export_import_roundtrip (A : AEAD) (C : Codec A.Ct) (addrOf : Bytes → 
     simp only [step] at this
     rw [this]
 
-/-! ### the coinbase cache is *not* part of the map -/
+/-! ### the coinbase cache follows the map -/
 
-/-- `GetCoinbase` with an empty cache returns a key that is present. -/
-theorem coinbase_uncached_is_present {A : AEADOps} {C : CodecOps A.Ct} (addrOf : Bytes → Bytes)
-    (kb : KB A C) (h : Inv kb) (hc : kb.coinbase = none) (a : Bytes)
+/-- `GetCoinbase` returns only keys that are present: a cached key is re-read from the DB (so a
+deleted one is forgotten and a re-encrypted one refreshed), otherwise the first listed key is
+taken — whatever was cached before. -/
+theorem coinbase_is_present {A : AEADOps} {C : CodecOps A.Ct} (addrOf : Bytes → Bytes)
+    (kb : KB A C) (h : Inv kb) (a : Bytes)
     (hr : (step addrOf kb .getCoinbase).2 = .addr a) : (abs kb a).isSome = true := by
-  simp only [step, hc] at hr
-  cases hd : kb.db with
-  | nil => simp [hd] at hr
-  | cons kv rest =>
-    obtain ⟨k, v⟩ := kv
-    simp only [hd] at hr
-    have hl : lookup kb.db k = some v := by simp [hd, lookup]
-    have : v.addr = k := h.2 k v hl
-    cases hr
-    simp [abs, this, hl]
+  simp only [step] at hr
+  split at hr
+  · rename_i e he
+    -- cached and still stored
+    cases hc : kb.coinbase with
+    | none => simp [hc] at he
+    | some c =>
+      simp only [hc] at he
+      cases hg : Keybase.get kb c.addr with
+      | error er => simp [hg] at he
+      | ok e' =>
+        simp only [hg, Option.some.injEq] at he
+        subst he
+        have hl : lookup kb.db c.addr = some e' := by
+          unfold Keybase.get at hg
+          cases hlk : lookup kb.db c.addr with
+          | none => simp [hlk] at hg
+          | some x => simp [hlk] at hg; rw [hg]
+        have hea : e'.addr = c.addr := h.2 _ _ hl
+        cases hr
+        simp [abs, hea, hl]
+  · cases hd : kb.db with
+    | nil => simp [hd] at hr
+    | cons kv rest =>
+      obtain ⟨k, v⟩ := kv
+      simp only [hd] at hr
+      have hl : lookup kb.db k = some v := by simp [hd, lookup]
+      have : v.addr = k := h.2 k v hl
+      cases hr
+      simp [abs, this, hl]
 
-/-- But the cache survives `Delete`: after import, `SetCoinbase`, `Delete` (with the passphrase),
-`GetCoinbase` still returns the deleted key while `Get` no longer finds it. -/
-theorem coinbase_returns_deleted_key :
+/-- After import, `SetCoinbase`, `Delete` (with the passphrase) the coinbase is gone together with
+the key: `Get` does not find it and `GetCoinbase` reports an empty keybase. -/
+theorem coinbase_forgets_deleted_key :
     let A := (idealAEAD id).toAEADOps
     let C := (idealCodec id).toCodecOps
     let r := run addr1 (KB.empty A C)
-      [.importObj sk1 [1] [9], .setCoinbase [7, 7], .delete [7, 7] [1], .get [7, 7], .getCoinbase]
+      [.importObj sk1 [1] [9], .setCoinbase [7, 7], .getCoinbase, .delete [7, 7] [1], .get [7, 7], .getCoinbase]
     (r.2.map fun x => match x with
-      | .ok => "ok" | .addr _ => "addr" | .err .notfound => "notfound" | _ => "other")
-      = ["addr", "ok", "ok", "notfound", "addr"] := by
+      | .ok => "ok" | .addr _ => "addr" | .err .notfound => "notfound" | .err .empty => "empty" | _ => "other")
+      = ["addr", "ok", "addr", "ok", "notfound", "empty"] := by
   decide
 
 end C40
